@@ -461,3 +461,23 @@ Theorem C06_process_line_from_source : forall line,
   option_map entry_pair (gen_process_line line) = Some (process_line line).
 Proof. exact process_line_from_source. Qed.
 Print Assumptions C06_process_line_from_source.
+
+(* ---------- the line the UserLogin becomes (Model/JsonEnc.v, proofs in Proofs/JsonEncLemmas.v / JsonParseLemmas.v) ----------
+   [login_view aid t e] is the JSON view of a processor event e with the AuditID aid drawn by NewAuditEvent and the
+   formatted time t; [enc_line] the bytes handed to the file.  For EVERY record (any pid token, any message bytes),
+   every event the processor writes for it is ONE line — one newline, the last byte — and a reader parsing that line
+   gets back exactly the event's members in their fixed order, every string field being the sanitised field
+   (valid UTF-8 unchanged, any other byte as U+FFFD): nothing in the message can forge a second event or a field.
+   (The statements hold for every event value; they are instantiated here for the events C06 speaks about.) *)
+From AM Require Import Model.JsonEnc Proofs.JsonEncLemmas Proofs.JsonParseLemmas.
+Theorem C06_json_login_line : forall (c : cfg) (tok line : str) (wok ready : bool) (aid t : str) (e : event),
+  In e (r_writes (process c tok line wok ready)) -> time_text_ok t = true ->
+  count_occ ascii_dec (enc_line (login_view aid t e)) newline = 1%nat /\
+  List.last (enc_line (login_view aid t e)) dq = newline /\
+  parse (enc_event (login_view aid t e)) = POk (reader_view (login_view aid t e)) [].
+Proof.
+  intros c tok line wok ready aid t e _ Ht.
+  destruct (enc_line_one_newline _ (login_view_ok aid t e Ht)) as [H1 H2].
+  exact (conj H1 (conj H2 (parse_enc_event_view _ (login_view_readable aid t e Ht)))).
+Qed.
+Print Assumptions C06_json_login_line.
